@@ -4,6 +4,7 @@
 import BorshModel.Lemmas.Safe
 import BorshModel.Lemmas.ConsumeMain
 import BorshModel.Cost
+import BorshModel.Lemmas.WorkMain
 namespace Borsh
 
 /-- **Totality.** For every type of the universe and every byte string, decoding from a slice
@@ -65,5 +66,30 @@ example :
   constructor
   · decide +kernel
   · decide +kernel
+
+/-- **Composed bound, whole universe**: for every type all of whose collection elements occupy at
+least one byte on the wire (`occ`: the property's hypothesis, at every nesting level), every byte
+string and both key-order modes, the decoded value — every element of every nested collection, every
+byte of every string — has at most `costA t + costB t · (bytes consumed)` nodes, where the two
+constants depend on the type only.  So the number of elements decoded, and the memory the result
+retains, are linear in the input length: a length prefix alone buys nothing. -/
+theorem C07_value_size_bound (st : Bool) (t : Ty) (bs rest : Bytes) (v : Val) (ho : occ t = true)
+    (h : deserialize st t bs = .ok (v, rest)) :
+    rest.length ≤ bs.length ∧ v.nodes ≤ costA t + costB t * (bs.length - rest.length) :=
+  work_all t ho st bs v rest h
+
+/-- … in terms of the whole input -/
+theorem C07_value_size_linear (st : Bool) (t : Ty) (bs rest : Bytes) (v : Val) (ho : occ t = true)
+    (h : deserialize st t bs = .ok (v, rest)) : v.nodes ≤ costA t + costB t * bs.length := by
+  obtain ⟨_, w⟩ := C07_value_size_bound st t bs rest v ho h
+  exact Nat.le_trans w (Nat.add_le_add_left (Nat.mul_le_mul_left _ (Nat.sub_le _ _)) _)
+
+/-- non-vacuity: `Vec<(String, Option<BTreeMap<u8, Vec<u16>>>)>` meets the hypothesis, with constants
+1 and 9; `Vec<()>`-like element types do not -/
+example :
+    let t := Ty.seq .vec (Ty.tuple [.str .string,
+      Ty.option (.map .btreeMap (.int .u8) (.seq .vec (.int .u16)))])
+    (occ t = true ∧ costA t = 1 ∧ costB t = 9) ∧ occ (.seq .vec (Ty.tuple [])) = false := by
+  decide +kernel
 
 end Borsh
